@@ -441,8 +441,29 @@ func RandString(c R, st string, wild int) string {
 	} else if st == "" || st == "utf8" {
 		kind = []string{"printable", "ia5", "utf8", "printable"}[c.Intn(4)]
 	}
+	if c.Intn(5) == 0 {
+		// non-ASCII runes chosen BY LOW BYTE: base + lb with lb from the PrintableString / IA5 / Numeric sets, so that
+		// a test that looks only at byte(r) takes the string for a restricted one; mixed with ASCII and the
+		// boundary runes 0x7f / 0x80 / 0xff / 0x100
+		kind = "lowbyte"
+		if n == 0 {
+			n = 1 + c.Intn(4)
+		}
+	}
 	for i := 0; i < n; i++ {
 		switch kind {
+		case "lowbyte":
+			a := alphabets[[]string{"printable", "printable", "numeric", "ia5"}[c.Intn(4)]]
+			lb := rune(a[c.Intn(len(a))])
+			switch c.Intn(8) {
+			case 0:
+				sb.WriteRune(lb) // plain ASCII
+			case 1:
+				sb.WriteRune([]rune{0x7f, 0x80, 0xff, 0x100}[c.Intn(4)])
+			default:
+				base := []rune{0x100, 0x400, 0x4E00, 0x1F600}[c.Intn(4)]
+				sb.WriteRune(base + lb)
+			}
 		case "utf8":
 			sb.WriteRune([]rune{'a', 'é', 'ß', '€', '日', '𝄞', 0x7ff, 0x800, 0xffff, 0x10000, 0x10ffff, '*', '&'}[c.Intn(13)])
 		case "bytes":
